@@ -3,6 +3,9 @@ CONSTANTS
   ReqV4 = {"f1"}
   ReqV6 = {"s1"}
   ReqDual = {"d1"}
+  ReqFail = {}
+  ReqFail6 = {}
+  ErrorPath = "plain"
   Reloads = {"m1"}
   ToB = {"m1"}
   Bad = {}
